@@ -170,7 +170,7 @@ fn python_leg(st: &Selected, ops: &StateOps, root: &Path, python: &str) -> BTree
         let tf = root.join(format!("{id}.task.json"));
         let rf = root.join(format!("{id}.result.jsonl"));
         std::fs::write(&tf, serde_json::to_string(&task).unwrap()).expect("write task");
-        let _ = Command::new("timeout").arg("600").arg(python).arg(format!("{VERIF_DIR}/drivers/pydrv.py")).arg(&tf).arg(&rf).env("PYTHONDONTWRITEBYTECODE", "1").status();
+        let _ = Command::new("timeout").arg("3600").arg(python).arg(format!("{VERIF_DIR}/drivers/pydrv.py")).arg(&tf).arg(&rf).env("PYTHONDONTWRITEBYTECODE", "1").status();
         let result: Option<J> = std::fs::read_to_string(&rf).ok().and_then(|s| s.lines().next().and_then(|l| serde_json::from_str(l).ok()));
         if std::env::var("PDLMC_KEEP").is_err() {
             let _ = std::fs::remove_file(&tf);
@@ -536,7 +536,7 @@ pub fn check(tier: Tier) -> i32 {
             eligible.push(st);
         }
     }
-    let stride: usize = std::env::var("PDLMC_C07_STRIDE").ok().and_then(|s| s.parse().ok()).unwrap_or(if thorough { 6 } else { 5 });
+    let stride: usize = std::env::var("PDLMC_C07_STRIDE").ok().and_then(|s| s.parse().ok()).unwrap_or(if thorough { 24 } else { 5 });
     let limit: usize = std::env::var("PDLMC_LIMIT").ok().and_then(|s| s.parse().ok()).unwrap_or(usize::MAX);
     let chosen: Vec<&Selected> = eligible.iter().copied().step_by(stride.max(1)).take(limit).collect();
     eprintln!("C07: {} rust states, {} in the intersection, {} chosen ({:.1}s)", h.states.len(), eligible.len(), chosen.len(), ev.start.elapsed().as_secs_f64());
